@@ -16,7 +16,8 @@ try:
     parts = s.split(old)
     s2 = old.join(parts[:idx + 1]) + new + old.join(parts[idx + 1:])
     open(p, "w").write(s2)
-    import ast; ast.parse(s2)
+    if rel.endswith(".py"):
+        import ast; ast.parse(s2)
     for pr in props:
         r = subprocess.run(["/verif/vcheck", pr, "--root", tmp], capture_output=True, text=True, env={**os.environ, "VERIF_NO_EVIDENCE": "1"})
         lines = [l for l in r.stdout.splitlines() if l.startswith(("VIOLATION", "ANALYSIS-ERROR", "[FAIL]"))]
